@@ -21,6 +21,13 @@ Part 3: histories over a stateful backend.
 Part 4: the exceptions that are real: F3 (empty range), F11 (HEAD errors), F24 (error bodies over 8 KiB),
         and F29 (an error written with a success status; fixed).
 Part 5: two hops.
+Part 6: F31 (fixed): a call by digest reports the digest that was asked for, over any transport.
+
+F31 (ociclient `descriptorFromResponse`: the digest asked for wins over the `Docker-Content-Digest` header): `expect`
+(`WireSpec.expectOk`) now gives `GetManifest`, `ResolveBlob`, `ResolveManifest` and `MountBlob` the digest of the CALL,
+as it already did for `GetBlob` / `GetBlobRange`; accordingly `Faithful` — the hypothesis of the transparency theorems —
+now asks of every one of these calls that the backend's answer carries the digest asked for. The exactness theorems
+(`wire_call_exact`, `wire_exact`, histories, two hops) are unconditional as before.
 
 Statements and short proofs only; lemmas are in `OciModel/WireLemmas.lean` and `OciModel/WireSource.lean`.
 -/
@@ -61,6 +68,11 @@ example : WF exCfg (.getBlob exRepo exDigest) ∧ Single exCfg (.getBlob exRepo 
   ⟨⟨by decide, by decide⟩, trivial⟩
 example : Carriable exCfg (.getBlob exRepo exDigest) (exB (.getBlob exRepo exDigest)) := ⟨by decide, by decide⟩
 example : Faithful exCfg (.getBlob exRepo exDigest) (exB (.getBlob exRepo exDigest)) := rfl
+-- F31: the strengthened `Faithful` is satisfiable for the calls it now constrains (an answer that carries the digest asked for)
+example : Faithful exCfg (.resolveBlob exRepo exDigest) (.ok (.desc exDesc)) := rfl
+example : Faithful exCfg (.getManifest exRepo exDigest) (.ok (.reader exDesc [1, 2, 3])) := rfl
+example : Faithful exCfg (.resolveManifest exRepo exDigest) (.ok (.desc exDesc)) := rfl
+example : Faithful exCfg (.mountBlob exRepo exRepo exDigest) (.ok (.desc exDesc)) := rfl
 example : WF exCfg (.getBlobRange exRepo exDigest 1 (-1)) := ⟨by decide, by decide, ⟨by decide, by decide⟩, by decide, Or.inl (by decide)⟩
 example : WF exCfg (.pushManifest exRepo (strBytes "latest") [123, 125] mtImageManifest) :=
   ⟨by decide, Or.inr (by decide), by decide, by decide⟩
@@ -129,6 +141,9 @@ theorem wire_call_exact_stateless (cfg : Cfg) (ht : TableOK cfg.table) (fuel : N
 /-- **In the words of the task.** `clientCall : (HttpRequest → HttpResponse) → Call → Result` over
 `serverHandle B : HttpRequest → HttpResponse × List Call`: for every backend `B : Call → Answer` and every
 single-request call with well-formed names, `clientCall (fun rq => (serverHandle B rq).1) c ≈ B c` … -/
+-- F31: `hf : Faithful …` now also asks `answer digest = requested digest` of `ResolveBlob`, `MountBlob`, and (whatever
+-- `omitDigest`) `GetManifest`, `ResolveManifest`: the client reports the digest asked for, so without it the old
+-- statement is false (`wire_answer_equivalent_F31_counterexample`).
 theorem wire_transparent (cfg : Cfg) (ht : TableOK cfg.table) (fuel : Nat) (B : Backend) (c : Wire.Call)
     (hs : Single cfg c) (hwf : WF cfg c) (hcar : Carriable cfg c (B (onWire c))) (hf : Faithful cfg c (B (onWire c)))
     (hsmall : ∀ e, B (onWire c) = .err e → c.isHead = false → SmallBody cfg e) :
@@ -167,14 +182,17 @@ success/failure; for a failure the same HTTP status and, unless the carrier is a
 (`UNKNOWN` for an error without one); for a success the same digest and size, the same media type for
 manifests, the same bytes; a mount carries the digest only; an upload is named by the location of the
 backend's ID — as soon as the backend's answer agrees with the request (`Faithful`: a registry's does; it is
-needed because `PushManifest`, `Commit` and `GetBlob` report the client's own account instead of reading the
-answer) and an error's body is one the client decodes (≤ 8 KiB: F24). -/
+needed because `PushManifest` and `Commit` report the client's own account instead of reading the answer, and
+every call by digest reports the digest it asked for) and an error's body is one the client decodes (≤ 8 KiB: F24). -/
+-- F31: `Faithful` strengthened for `ResolveBlob`, `MountBlob`, `GetManifest`, `ResolveManifest` (see `wire_transparent`);
+-- with the old `Faithful` the statement is false: `wire_answer_equivalent_F31_counterexample`.
 theorem wire_answer_equivalent (cfg : Cfg) (c : Wire.Call) (a : Answer) (hs : Single cfg c) (hcar : Carriable cfg c a)
     (hf : Faithful cfg c a) (hsmall : ∀ e, a = .err e → c.isHead = false → SmallBody cfg e) :
     Equiv cfg c (expect cfg c a) a :=
   expect_equiv cfg c a hs hcar hf hsmall
 
 /-- The two together: **one call through the wire is transparent.** -/
+-- F31: `hf : Faithful …` strengthened as in `wire_transparent`.
 theorem wire_call_transparent {σ : Type} (cfg : Cfg) (ht : TableOK cfg.table) (fuel : Nat) (B : SBackend σ)
     (st : σ × List Wire.Call) (c : Wire.Call) (hs : Single cfg c) (hwf : WF cfg c)
     (hcar : Carriable cfg c (B st.1 (onWire c)).2) (hf : Faithful cfg c (B st.1 (onWire c)).2)
@@ -257,6 +275,7 @@ theorem wire_history_exact {σ : Type} (cfg : Cfg) (ht : TableOK cfg.table) (hde
 stateful backend `B : σ → Wire.Call → σ × Answer`: the backend ends in the state the direct history ends in, it
 has received exactly the calls of the history, in order, and every result is equivalent to the answer the
 backend gave at that point of the direct history. -/
+-- F31: `hf : HistFaithful …` is `Faithful` at every step, strengthened as in `wire_transparent`.
 theorem wire_history_transparent {σ : Type} (cfg : Cfg) (ht : TableOK cfg.table) (hdec : DecodersOK cfg) (fuel : Nat)
     (B : SBackend σ) (cs : List Wire.Call) (st : σ × List Wire.Call) (hs : ∀ c ∈ cs, Single cfg c)
     (hok : HistOK cfg fuel B st.1 cs) (hf : HistFaithful cfg B st.1 cs) :
@@ -365,6 +384,8 @@ theorem two_hops_exact {σ : Type} (cfg1 cfg2 : Cfg) (ht1 : TableOK cfg1.table) 
 
 /-- **Two hops, transparently**, for a success: after two hops the caller still holds the backend's digest, size,
 bytes and (for manifests) media type. -/
+-- F31: `hf`, `hf2 : Faithful …` strengthened as in `wire_transparent` (`hf2` follows from `hf` for the calls by digest:
+-- the first hop delivers the digest asked for).
 theorem two_hops_success_equivalent (cfg1 cfg2 : Cfg) (c : Wire.Call) (b : BRes) (hid : c.idFree = true)
     (hs1 : Single cfg1 (onWire c)) (hcar : Carriable cfg1 (onWire c) (.ok b))
     (hf : Faithful cfg1 (onWire c) (.ok b)) (hf2 : Faithful cfg2 c (asAnswer (expect cfg1 (onWire c) (.ok b)))) :
@@ -376,5 +397,54 @@ after one (C07's `hop_idempotent`: a further hop changes nothing at all). -/
 theorem two_hops_error_fixed_point (cfg : Cfg) (hc : ∀ d, cfg.compact (cfg.compact d) = cfg.compact d) (e : Err) :
     mar cfg (faultErr (.reg (ErrCodec.unmarshal cfg.stdMsg false (mar cfg e)))) = mar cfg e :=
   mar_hop_fixed cfg hc e
+
+/-! ## Part 6 — F31 (fixed): a call by digest reports the digest that was asked for -/
+
+def exDigest2 : Bytes := sha256 ++ cColon :: List.replicate 64 98
+def exDesc2 : Desc := { mediaType := mtImageManifest, digest := exDigest2, size := 3 }
+
+/-- **The client reports the requested digest, over ANY transport.** For every call that names a digest (`GetBlob`,
+`GetBlobRange`, `GetManifest`, `ResolveBlob`, `ResolveManifest`, `MountBlob`) and every transport `send` — the model's
+server, another server, or anything in between that rewrites answers and headers — a successful result carries
+exactly the digest that was asked for (of the descriptor, or of the reader, which is then what the bytes are verified
+against: `C03R.read_by_digest_checks_requested`). No hypothesis on the backend, the names or the answers. -/
+theorem client_reports_requested_digest {σ : Type} (cfg : Cfg) (fuel : Nat)
+    (send : σ → HttpRequest → σ × HttpResponse) (s : σ) (c : Wire.Call) (dg : Bytes)
+    (hc : c.requested = some dg) (hne : dg ≠ []) (d : Desc)
+    (h : (clientCallS cfg fuel send s c).2 = .desc d ∨ ∃ v body, (clientCallS cfg fuel send s c).2 = .reader d v body) :
+    d.digest = dg := by
+  apply clientCallS_requested cfg fuel send s c hc hne
+  rcases h with h | ⟨v, body, h⟩ <;> rw [h] <;> rfl
+
+example : (Wire.Call.resolveBlob exRepo exDigest).requested = some exDigest ∧ exDigest ≠ [] := ⟨rfl, by decide⟩
+
+/-- The same through the model's server in front of an arbitrary backend: whatever descriptor the backend answers
+with — here one with ANOTHER digest — the caller of `ResolveBlob(exDigest)` holds `exDigest`. -/
+theorem wire_reports_requested_digest {σ : Type} (cfg : Cfg) (fuel : Nat) (B : SBackend σ) (st : σ × List Wire.Call)
+    (c : Wire.Call) (dg : Bytes) (hc : c.requested = some dg) (hne : dg ≠ []) (d : Desc)
+    (h : (hopS cfg fuel B st c).2 = .desc d ∨ ∃ v body, (hopS cfg fuel B st c).2 = .reader d v body) :
+    d.digest = dg :=
+  client_reports_requested_digest cfg fuel (serveS cfg B) st c dg hc hne d h
+
+example : expect exCfg (.resolveBlob exRepo exDigest) (.ok (.desc exDesc2)) =
+    .desc { mediaType := octetStream, digest := exDigest, size := 3 } := rfl
+
+/-- F31: with `Faithful` as it was before the fix (it asked nothing of `ResolveBlob`) the statement of
+`wire_answer_equivalent` / `wire_transparent` is false: the call is single, the answer is one the headers carry, yet
+what arrives is not equivalent to it — the caller holds the digest it asked for, not the answer's. -/
+theorem wire_answer_equivalent_F31_counterexample :
+    Single exCfg (.resolveBlob exRepo exDigest) ∧
+    Carriable exCfg (.resolveBlob exRepo exDigest) (.ok (.desc exDesc2)) ∧
+    (∀ e, Answer.ok (.desc exDesc2) = .err e → (Wire.Call.resolveBlob exRepo exDigest).isHead = false → SmallBody exCfg e) ∧
+    ¬ Equiv exCfg (.resolveBlob exRepo exDigest)
+        (expect exCfg (.resolveBlob exRepo exDigest) (.ok (.desc exDesc2))) (.ok (.desc exDesc2)) := by
+  refine ⟨trivial, ?_, ?_, ?_⟩
+  · exact ⟨⟨by decide, by decide⟩, by decide⟩
+  · intro e h; cases h
+  · rintro ⟨d', h, hd, _⟩
+    simp only [expect, expectOk, Result.desc.injEq] at h
+    subst h
+    revert hd
+    decide
 
 end OciModel.Props.C03W
